@@ -29,7 +29,7 @@ vars == <<reg, buf, heap, known>>
 Regs == 1..NR
 StaticPtr == 0
 None == [k |-> "none", cap |-> 0, len |-> 0, neg |-> FALSE, ptr |-> 0, st |-> FALSE]
-NoBuf == [k |-> "none", cap |-> 0, len |-> 0, nz |-> 0, ptr |-> 0]
+NoBuf == [k |-> "none", cap |-> 0, len |-> 0, ptr |-> 0]
 V(s, neg, ptr, st) == [k |-> "val", cap |-> s.cap, len |-> s.len, neg |-> neg, ptr |-> ptr, st |-> st]
 IsVal(v) == v.k = "val"
 Owns(v) == v.k = "val" /\ v.cap > 2 /\ ~v.st
@@ -71,19 +71,19 @@ BufAllocate == \E n \in 0..MaxWords :
   /\ buf = NoBuf
   /\ LET p == Fresh(heap) c == DefaultCapacity(n) IN
      /\ heap' = HAlloc(heap, p, c)
-     /\ buf' = [k |-> "buf", cap |-> c, len |-> 0, nz |-> 0, ptr |-> p]
+     /\ buf' = [k |-> "buf", cap |-> c, len |-> 0, ptr |-> p]
   /\ UNCHANGED <<reg, known>>
 BufAllocateExact == \E c \in 1..MaxCap :
   /\ buf = NoBuf
   /\ LET p == Fresh(heap) IN
      /\ heap' = HAlloc(heap, p, c)
-     /\ buf' = [k |-> "buf", cap |-> c, len |-> 0, nz |-> 0, ptr |-> p]
+     /\ buf' = [k |-> "buf", cap |-> c, len |-> 0, ptr |-> p]
   /\ UNCHANGED <<reg, known>>
-\* push / push_slice / truncate / word writes: any length within the capacity (the pushes assert
-\* it), any number of significant words within the length
-BufFill == \E l \in 0..MaxCap, z \in 0..MaxCap :
-  /\ buf.k = "buf" /\ l <= buf.cap /\ z <= l /\ <<l, z>> # <<buf.len, buf.nz>>
-  /\ buf' = [buf EXCEPT !.len = l, !.nz = z]
+\* push / push_slice / truncate: any length within the capacity (the pushes assert it); the words
+\* written are arbitrary (how many of them are significant is decided when the buffer is consumed)
+BufFill == \E l \in 0..MaxCap :
+  /\ buf.k = "buf" /\ l <= buf.cap /\ l # buf.len
+  /\ buf' = [buf EXCEPT !.len = l]
   /\ UNCHANGED <<reg, heap, known>>
 \* ensure_capacity(n): reallocate(n) iff n > capacity and n > 2
 BufEnsureCapacity == \E n \in 3..MaxWords :
@@ -105,10 +105,10 @@ BufIntoBoxedSlice ==
   /\ UNCHANGED <<reg, known>>
 \* Repr::from_buffer: pop_zeros; 0..2 words -> inline, the Buffer is dropped; otherwise shrink_to_fit
 \* (realloc iff capacity > max_compact_capacity) and transmute
-FromBuffer(r) ==
-  /\ reg[r] = None /\ buf.k = "buf"
-  /\ LET s == A_FromBuffer(buf.cap, buf.nz) IN
-     IF buf.nz <= 2
+FromBuffer(r) == \E nz \in 0..MaxCap :
+  /\ reg[r] = None /\ buf.k = "buf" /\ nz <= buf.len
+  /\ LET s == A_FromBuffer(buf.cap, nz) IN
+     IF nz <= 2
      THEN /\ heap' = HDealloc(heap, buf.ptr, buf.cap)
           /\ reg' = [reg EXCEPT ![r] = V(s, FALSE, 0, FALSE)]
      ELSE /\ heap' = IF s.cap # buf.cap THEN HRealloc(heap, buf.ptr, buf.cap, s.cap, buf.ptr) ELSE heap
@@ -122,8 +122,8 @@ IntoBuffer(r) ==
      IF v.cap <= 2
      THEN LET p == Fresh(heap) IN
           /\ heap' = HAlloc(heap, p, c)
-          /\ buf' = [k |-> "buf", cap |-> c, len |-> v.len, nz |-> v.len, ptr |-> p]
-     ELSE /\ buf' = [k |-> "buf", cap |-> v.cap, len |-> v.len, nz |-> v.len, ptr |-> v.ptr]
+          /\ buf' = [k |-> "buf", cap |-> c, len |-> v.len, ptr |-> p]
+     ELSE /\ buf' = [k |-> "buf", cap |-> v.cap, len |-> v.len, ptr |-> v.ptr]
           /\ UNCHANGED heap
   /\ reg' = [reg EXCEPT ![r] = None]
   /\ UNCHANGED known
@@ -207,7 +207,7 @@ HeapWhy ==
   ELSE IF Live(heap) # {reg[r].ptr : r \in OwnerRegs} \cup (IF buf.k = "buf" THEN {buf.ptr} ELSE {}) THEN "leak"
   ELSE ""
 HeapStrict == HeapWhy = ""
-BufferInv == buf.k = "buf" => buf.nz <= buf.len /\ buf.len <= buf.cap /\ buf.cap >= 1
+BufferInv == buf.k = "buf" => buf.len <= buf.cap /\ buf.cap >= 1
 
 \* invariants of the check while F01 is open: Def \/ Known_F01(state)
 CanonicalOrKnown == known \/ CanonicalStrict
